@@ -72,13 +72,12 @@ class S:
     # ------------------------------------------------------------------ semantics
     def point(self, names):
         for n in names:
-            if n not in self._point:
-                self._point[n] = z3.Real("p_" + n)
+            self.pval(n)
         return self._point
 
     def pval(self, n):
         if n not in self._point:
-            self._point[n] = z3.Real("p_" + n)
+            self._point[n] = to_real(self.ctx.named_real("p_" + n))
         return self._point[n]
 
     def coefs(self, t):
